@@ -110,6 +110,84 @@ def projection_case(case, st):
                             observed=got, expected=want), sub, "c05.projection")
 
 
+def winding_labels(h, w, cells):
+    """labels of a partition whose class 0 is the given cell set and whose other classes are the connected
+    components of the rest -> (labels row-major, number of classes)"""
+    from puzzles.base import components
+
+    lab = {tuple(c): 0 for c in cells}
+    rest = {(y, x) for y in range(h) for x in range(w)} - set(lab)
+    k = 1
+    for comp in sorted(components(rest), key=min):
+        for c in comp:
+            lab[c] = k
+        k += 1
+    return [lab[(y, x)] for y in range(h) for x in range(w)], k
+
+
+def winding_case(case, cache=None):
+    """grids beyond the exhaustive scope: one class is a long winding shape; decided on the posted program"""
+    from cspuz import Solver
+
+    h, w = case["grid"]
+    key = (h, w, case["k"], case["allow_empty"], case["roots"] is not None and tuple(case["roots"]))
+    if cache is not None and key in cache:
+        q, ids = cache[key]
+    else:
+        s = Solver()
+        arr = s.int_array((h, w), 0, case["k"] - 1)
+        post(case, s, arr)
+        q = encq.Query(s)
+        ids = [v.id for v in arr]
+        if cache is not None:
+            cache[key] = (q, ids)
+    want = reference(case, tuple(case["labels"]))
+    got = q.admits(ids, case["labels"])
+    if got != want:
+        raise Failure(("admits-invalid|" if got else "rejects-valid|") + tag(case) + "|winding",
+                      observed=got, expected=want, detail=dict(grid=[h, w], shape=case.get("shape")))
+    return want
+
+
+def shard_winding(arg):
+    seed, shape, n = arg
+    st = Stats()
+    from hypothesis import strategies as hs
+    from vlib import winding
+
+    h, w = shape
+    cache = {}
+
+    @hs.composite
+    def c(draw):
+        name, cells = winding.shapes(draw, hs, h, w)
+        labels, k = winding_labels(h, w, cells)
+        mode = draw(hs.integers(0, 3))
+        if mode == 1 and len(cells) >= 3:
+            # the middle cell of the shape joins another class (or one of its own): class 0 falls apart
+            y, x = cells[draw(hs.integers(1, len(cells) - 2))]
+            labels[y * w + x] = k
+            k += 1
+        k = min(max(k, 1), 6)
+        labels = [min(v, k - 1) for v in labels]      # surplus classes are merged into the last one
+        roots = None
+        if draw(hs.booleans()):
+            roots = [None] * k
+            y, x = cells[draw(hs.integers(0, len(cells) - 1))]
+            roots[0] = y * w + x                        # a root anywhere on the shape, e.g. at its far end
+        return dict(grid=[h, w], k=k, allow_empty=draw(hs.booleans()), native=False, roots=roots, roots_form="list",
+                    shape=name, labels=labels)
+
+    def body(case):
+        want = winding_case(case, cache)
+        st.case(canon=case, nontrivial=True,
+                classes=["winding", "winding:" + case["shape"], "winding:" + ("valid" if want else "invalid")],
+                sample=case)
+
+    hyp_search(st, c(), body, seed=seed, max_examples=n, check="c05.winding", rounds=2)
+    return st
+
+
 FORMS = ["array-pinned", "list-of-exprs", "list-of-ints", "array-of-exprs"]
 
 
@@ -269,7 +347,12 @@ def run(ctx):
         ctx.stats.merge(r)
     for r in pmap(shard_e2e, [(ctx.seed * 1000 + 60 + i, 120 if quick else 2500) for i in range(8 if quick else 16)]):
         ctx.stats.merge(r)
+    wshapes = [(3, 4), (4, 4), (5, 5), (4, 6), (5, 6), (2, 9)]
+    for r in pmap(shard_winding, [(ctx.seed * 1000 + 90 + i, sh, 24 if quick else 300) for i, sh in enumerate(wshapes)]):
+        ctx.stats.merge(r)
     cl = ctx.stats.classes
+    ctx.floor("winding partitions that are valid", cl["winding:valid"], 30)
+    ctx.floor("winding partitions that are invalid", cl["winding:invalid"], 10)
     tot = max(1, cl["projection"])
     ctx.floor("roots given (share)", round(cl["roots-given"] / tot, 3), 0.15)
     ctx.floor("allow_empty_group (share)", round(cl["allow-empty"] / tot, 3), 0.3)
@@ -282,6 +365,9 @@ def replay(ctx, rep):
     case = rep["case"]
     if rep.get("check") == "c05.e2e":
         e2e_case(case)
+        return
+    if rep.get("check") == "c05.winding":
+        winding_case(case)
         return
     st = Stats()
     c = dict(case)
